@@ -80,6 +80,7 @@ func NewSolver(kind SolverKind, timeoutMs int) (*Solver, error) {
 		defined: map[int]bool{}, declared: map[string]bool{}}
 	if kind == SolverCVC5 {
 		s.send("(set-logic ALL)")
+		s.send("(set-option :strings-exp true)")
 	} else {
 		s.send(fmt.Sprintf("(set-option :timeout %d)", timeoutMs))
 		s.send("(set-option :model.completion true)")
@@ -135,6 +136,8 @@ func sortName(w uint8) string {
 		return "String"
 	case WInt:
 		return "Int"
+	case WRegLan:
+		return "RegLan"
 	}
 	return fmt.Sprintf("(_ BitVec %d)", w)
 }
@@ -242,8 +245,23 @@ func (s *Solver) body(t *Term) string {
 		}
 		return acc
 	case OpStrApp:
+		name := t.Name
+		if strings.HasPrefix(name, "uf:") {
+			name = smtVarName(name[3:])
+			if !s.declared["fun:"+t.Name] {
+				s.declared["fun:"+t.Name] = true
+				var as []string
+				for _, x := range t.Args {
+					as = append(as, sortName(x.W))
+				}
+				s.send(fmt.Sprintf("(declare-fun %s (%s) %s)", name, strings.Join(as, " "), sortName(t.W)))
+			}
+		}
+		if len(t.Args) == 0 {
+			return name
+		}
 		var sb strings.Builder
-		sb.WriteString("(" + t.Name)
+		sb.WriteString("(" + name)
 		for _, x := range t.Args {
 			sb.WriteString(" " + r(x))
 		}
@@ -575,4 +593,26 @@ func (s *Solver) ValueOf(t *Term) (Verdict, uint64) {
 	m := map[string]uint64{}
 	parseValues(txt, []*Term{{Op: OpVar, W: t.W, Name: "x"}}, m, map[string]string{})
 	return VSat, m["x"]
+}
+
+// StrValueOf returns the value of a String-sorted term in some model of the asserted context.
+func (s *Solver) StrValueOf(t *Term) (Verdict, string) {
+	ref := s.ref(t)
+	v := s.check()
+	if v != VSat {
+		return v, ""
+	}
+	s.send("(get-value (" + ref + "))")
+	s.marker()
+	lines, _ := s.readUntilMarker()
+	txt := strings.Join(lines, " ")
+	if strings.Contains(txt, "(error") {
+		s.Errors++
+		s.lastError = txt
+		return VUnknown, ""
+	}
+	m := map[string]uint64{}
+	ms := map[string]string{}
+	parseValues(txt, []*Term{{Op: OpVar, W: WString, Name: "x"}}, m, ms)
+	return VSat, ms["x"]
 }
